@@ -127,7 +127,19 @@ fn fe_program_inner(src: &str, do_compile: bool, t0: Instant) -> String {
     }
     mark(b'c');
     let r = match catch(|| typed.compile("main").map(|(c, _)| c.gates.len())) {
-        Err(p) => return format!("P compile {}", one_line(&p)),
+        Err(p) => {
+            // cause attribution for known finding KF-C05-1: does the type-checked program still
+            // contain a number literal whose type was left unspecified (compiled as 32 wires)?
+            // (in the Debug rendering only *types* print as `Unsigned(Unspecified)` / `Signed(Unspecified)`;
+            // a literal node that got a concrete type prints as `NumUnsigned(1, Unspecified), .. ty: Unsigned(U8)`)
+            let unspecified = catch(|| {
+                let dbg = format!("{typed:?}");
+                dbg.contains("Unsigned(Unspecified)") || dbg.contains("Signed(Unspecified)")
+            })
+            .unwrap_or(false);
+            let stage = if unspecified { "compile[unspecified-literal-type-left-by-check]" } else { "compile" };
+            return format!("P {stage} {}", one_line(&p));
+        }
         Ok(Err(es)) => return judge_errors("compile", src, CompileTimeError::CompilerError(es)),
         Ok(Ok(n)) => n,
     };
@@ -632,16 +644,17 @@ impl St {
             Out::Ok(_) | Out::Errors(..) => {}
             // an allocation request above isize::MAX is memory exhaustion as well (Vec reports it
             // as a panic instead of an allocation failure)
-            Out::Panic(stage, msg) if stage == "compile" && msg.starts_with("capacity overflow") => {
+            Out::Panic(stage, msg) if stage.starts_with("compile") && msg.starts_with("capacity overflow") => {
                 self.inconclusive.inc("compile stage asked for more memory than the address space holds (capacity overflow; not judged)")
             }
             // the width defect of known finding KF-C05-1 (a suffix-free number literal keeps 32 wires
-            // where its context needs another width) surfaces in the compiler as a width-mismatch
-            // panic; it is bucketed under its own signature, keyed on cause: compile stage, panic
-            // inside compile.rs whose message involves the default width 32, input contains a
-            // suffix-free number literal. Everything else keeps its own signature.
-            Out::Panic(stage, msg) if stage == "compile" && msg.contains("/src/compile.rs") && msg.contains("32") && has_suffix_free_number(inp.judged_text()) => {
-                self.finding("panic:compile:width-mismatch-involving-the-default-width-32-of-a-suffix-free-literal".into(), inp, msg.clone())
+            // where its context needs another width) surfaces in the compiler as a panic; it is
+            // bucketed under its own signature, keyed on cause: compile-stage panic on a program
+            // whose type-checked form still contains a number literal of unspecified type (reported
+            // by the worker) and whose text contains a suffix-free number. Everything else keeps
+            // its own signature.
+            Out::Panic(stage, msg) if stage == "compile[unspecified-literal-type-left-by-check]" && has_suffix_free_number(inp.judged_text()) => {
+                self.finding("panic:compile:program-accepted-with-a-number-literal-of-unspecified-type".into(), inp, msg.clone())
             }
             Out::Panic(stage, msg) => self.finding(format!("panic:{stage}:{}", panic_signature(msg)), inp, msg.clone()),
             Out::Bad(stage, w) => self.finding(format!("bad-error:{stage}:{}", w.split(' ').next().unwrap_or("")), inp, w.clone()),
@@ -1053,8 +1066,35 @@ pub fn run(ctx: &Ctx) -> i32 {
                 }
             }
         }
+        // line-level edits: deletion, duplication, adjacent swap of every line
+        'l: for b in &bases {
+            if ctx.past(0.42) {
+                a_complete = false;
+                break 'l;
+            }
+            let lines: Vec<&str> = b.src.split_inclusive('\n').collect();
+            if lines.len() < 2 || lines.len() > 400 {
+                continue;
+            }
+            for i in 0..lines.len() {
+                if !mine(&mut k) {
+                    continue;
+                }
+                let mut del = lines.clone();
+                del.remove(i);
+                f.prog("line deletion", &b.origin, del.concat(), b.compile);
+                let mut dup = lines.clone();
+                dup.insert(i, lines[i]);
+                f.prog("line duplication", &b.origin, dup.concat(), b.compile);
+                if i + 1 < lines.len() {
+                    let mut sw = lines.clone();
+                    sw.swap(i, i + 1);
+                    f.prog("adjacent line swap", &b.origin, sw.concat(), b.compile);
+                }
+            }
+        }
         f.flush();
-        for c in ["character prefix", "token prefix", "token deletion", "token duplication", "adjacent token swap"] {
+        for c in ["character prefix", "token prefix", "token deletion", "token duplication", "adjacent token swap", "line deletion", "line duplication", "adjacent line swap"] {
             f.st.exhaustive_classes.insert(c, a_complete);
         }
 
@@ -1077,6 +1117,15 @@ pub fn run(ctx: &Ctx) -> i32 {
                     for a in ALPHABET {
                         f.prog("token substitution", &b.origin, splice(&b.src, *s, *e, a), b.compile);
                     }
+                    // ... and by every other distinct word (identifier, number) of the same program
+                    let mut words: Vec<&str> = b.toks.iter().map(|(s, e)| &b.src[*s..*e]).filter(|w| w.bytes().all(|c| c.is_ascii_alphanumeric() || c == b'_')).collect();
+                    words.sort();
+                    words.dedup();
+                    for w in words.iter().take(60) {
+                        if *w != &b.src[*s..*e] {
+                            f.prog("token substitution by a word of the program", &b.origin, splice(&b.src, *s, *e, w), b.compile);
+                        }
+                    }
                 }
             }
         } else {
@@ -1088,6 +1137,13 @@ pub fn run(ctx: &Ctx) -> i32 {
                 let (s, e) = *rng.pick(&b.toks);
                 let a = rng.pick(ALPHABET);
                 f.prog("token substitution", &b.origin, splice(&b.src, s, e, a), b.compile);
+                // by another token of the same program (the wrong identifier / number / operator)
+                for _ in 0..2 {
+                    let (s2, e2) = *rng.pick(&b.toks);
+                    if b.src[s2..e2] != b.src[s..e] {
+                        f.prog("token substitution by a token of the program", &b.origin, splice(&b.src, s, e, &b.src[s2..e2]), b.compile);
+                    }
+                }
                 // insertion as well
                 if rng.chance(1, 3) {
                     let a = rng.pick(ALPHABET);
